@@ -8,7 +8,7 @@ From Coq Require Import NArith List Bool Arith Lia.
 From DBG Require Import Gen.SourceConsts Spec.Dna Spec.Ascii Packed.KmerModel Packed.Avx2Model Packed.AsciiModel
   Packed.Blocks Packed.DnaStringModel Algo.SeqHist Algo.Iter
   Proofs.ListFacts Proofs.KmerLanes Proofs.KmerDefaults Proofs.KmerHistProofs Proofs.BlockProofs Proofs.DnaStringProofs
-  Proofs.IterProofs Proofs.AsciiPaths Proofs.AsciiPush Proofs.AsciiInv.
+  Proofs.IterProofs Proofs.AsciiPaths Proofs.AsciiRender Proofs.AsciiPush Proofs.AsciiInv.
 Import ListNotations.
 Open Scope N_scope.
 
@@ -232,3 +232,81 @@ Proof.
     apply to_d_inj. now apply d_inv_canonical.
   - intros [l [Hw ->]]. now apply ds_of_dna_inv.
 Qed.
+
+(* ---------------------------------------------------------------- GOAL 4: ASCII -> DnaString -> k-mers *)
+Lemma map_decode_inj K : forall ks rs, Forall (wf K) ks -> Forall (wf K) rs ->
+  map (decode K) ks = map (decode K) rs -> ks = rs.
+Proof.
+  induction ks as [|k ks IH]; destruct rs as [|r rs]; intros Hk Hr H; try discriminate; [reflexivity|].
+  apply Forall_cons_iff in Hk as [Wk Hk]. apply Forall_cons_iff in Hr as [Wr Hr]. cbn [map] in H.
+  injection H as H1 H2. f_equal; [now apply (decode_inj K) | now apply IH].
+Qed.
+
+Lemma map_b2b_ascii bytes : Forall (fun b => b < 256) bytes -> map b2b bytes = map ascii_base bytes.
+Proof.
+  intro Hb. apply map_ext_in. intros b Hin. apply b2b_ascii_base. rewrite Forall_forall in Hb. now apply Hb.
+Qed.
+
+Section EndToEnd.
+Variable c : kcfg.
+Hypothesis Hc : In c shipped.
+
+(* from the list of bases: any DnaString holding [l] in canonical form yields the k-mers of [l] *)
+Lemma kmers_of_packed l : wf_dna l ->
+  (forall pos, (pos + kK c <= length l)%nat ->
+     exists r, d_get_kmer c (to_d (ds_of_dna l)) pos = Some r /\ wf (kK c) r /\ decode (kK c) r = kmer_at (kK c) l pos) /\
+  (exists ks, iter_kmers c (d_len (to_d (ds_of_dna l))) (d_get (to_d (ds_of_dna l))) (d_get_kmer c (to_d (ds_of_dna l))) = Some ks /\
+              Forall (wf (kK c)) ks /\ map (decode (kK c)) ks = kmers (kK c) l).
+Proof.
+  intro Hw. destruct (bridge_of_dna l Hw) as [I A]. split.
+  - intros pos Hp. destruct (d_get_kmer_spec c Hc (to_d (ds_of_dna l)) pos I) as [r [E [W D]]].
+    + cbn [to_d ds_of_dna d_len ds_len]. exact Hp.
+    + exists r. rewrite A in D. auto.
+  - destruct (d_iter_kmers_spec c Hc (to_d (ds_of_dna l)) I) as [ks [E [W D]]].
+    exists ks. rewrite A in D. auto.
+Qed.
+
+Theorem ascii_to_kmers bytes avx2 : Forall (fun b => b < 256) bytes ->
+  exists d, from_acgt_bytes avx2 bytes = Some d /\
+    (forall pos, (pos + kK c <= length bytes)%nat ->
+       exists r, d_get_kmer c (to_d d) pos = Some r /\ wf (kK c) r /\
+                 decode (kK c) r = kmer_at (kK c) (map ascii_base bytes) pos) /\
+    (exists ks rs, iter_kmers c (d_len (to_d d)) (d_get (to_d d)) (d_get_kmer c (to_d d)) = Some ks /\
+                   kmers_from_ascii c bytes = Some rs /\ ks = rs).
+Proof.
+  intro Hb. exists (ds_of_dna (map ascii_base bytes)).
+  split; [apply (from_acgt_paths_agree bytes Hb)|].
+  destruct (kmers_of_packed (map ascii_base bytes) (ascii_bases_wf bytes)) as [G [ks [E [W D]]]]. split.
+  - intros pos Hp. apply G. now rewrite map_length.
+  - destruct (kmers_from_ascii_spec c Hc bytes) as [rs [Er [Wr Dr]]]. exists ks, rs.
+    split; [exact E|]. split; [exact Er|]. apply (map_decode_inj (kK c)); try assumption.
+    rewrite D, Dr. now rewrite map_b2b_ascii.
+Qed.
+
+(* the str constructor on ASCII text *)
+Theorem str_to_kmers text : Forall (fun ch => ch < 128) text ->
+  exists d, from_dna_string text = Some d /\
+    (forall pos, (pos + kK c <= length text)%nat ->
+       exists r, d_get_kmer c (to_d d) pos = Some r /\ wf (kK c) r /\
+                 decode (kK c) r = kmer_at (kK c) (map ascii_base text) pos) /\
+    (exists ks rs, iter_kmers c (d_len (to_d d)) (d_get (to_d d)) (d_get_kmer c (to_d d)) = Some ks /\
+                   kmers_from_ascii c text = Some rs /\ ks = rs).
+Proof.
+  intro Ht. rewrite (agree_with_str text Ht true). apply ascii_to_kmers.
+  apply Forall_forall. intros b Hin. rewrite Forall_forall in Ht. specialize (Ht b Hin). lia.
+Qed.
+
+(* the same for any value of the ASCII model satisfying its boolean invariant, against its stored bases *)
+Theorem ds_inv_kmers x : ds_inv x = true ->
+  exists l, ds_to_bytes x = Some l /\ wf_dna l /\ length l = ds_len x /\
+    (forall pos, (pos + kK c <= ds_len x)%nat ->
+       exists r, d_get_kmer c (to_d x) pos = Some r /\ wf (kK c) r /\ decode (kK c) r = kmer_at (kK c) l pos) /\
+    (exists ks, iter_kmers c (d_len (to_d x)) (d_get (to_d x)) (d_get_kmer c (to_d x)) = Some ks /\
+                Forall (wf (kK c)) ks /\ map (decode (kK c)) ks = kmers (kK c) l).
+Proof.
+  intro H. apply ds_inv_canonical in H as [l [Hw ->]]. exists l.
+  split; [now apply ds_to_bytes_spec|]. split; [exact Hw|]. split; [reflexivity|].
+  destruct (kmers_of_packed l Hw) as [G I]. split; [exact G | exact I].
+Qed.
+End EndToEnd.
+
